@@ -7,6 +7,8 @@ from .. import paths, waiters
 from ..core import FUNC, call_attr, calls_in, const, dotted, is_const, kwarg, norm, text, walk_local
 
 EXPLANATION = [
+    'C13.stk-scope: get_long_term_key returns the STK only on paths where the pairing is legacy, not completed, and Rand/EDIV match; the LTK is returned otherwise.',
+    'C13.fail-then-leave: in every Session method that can call send_pairing_failed, no protocol effect (command sent, key derived, encryption started) follows that call on any path.',
     'C13.role-symmetry: every call of s1/f5/f6/g2 is evaluated under both roles after rewriting own/peer values into initiator/responder tokens; both roles must feed the same tuple (and the specified order); a c1/f4 confirm value is verified with the tuple the other role generates it with; each side sends its own DHKey check and expects the peer\'s.',
     'C13.table: Session.PAIRING_METHODS (5x5 IO capabilities x {legacy, SC}) equals Core spec Vol 3 Part H Table 2.8 (embedded as '
     'oracle), with complementary display/input roles; decide_pairing_method indexes [initiator][responder], selects the legacy/SC '
@@ -522,7 +524,71 @@ def role_symmetry(ctx):
         R.check(sent == {'I': 'self.ea', 'R': 'self.eb'} and exp == {'I': 'self.eb', 'R': 'self.ea'}, rule, f'{S} | DHKey check exchange', 'initiator sends Ea and expects Eb; responder sends Eb and expects Ea', f'DHKey checks sent {sent} / expected {exp}', p.loc(rcv))
 
 
+
+def stk_scope(ctx):
+    """The short-term key answers an LTK request only while legacy pairing is still in progress."""
+    from .. import sym
+    R, p = ctx.r, ctx.p
+    rule = 'C13.stk-scope'
+    fn = p.find(f'{S}.get_long_term_key')
+    if fn is None:
+        R.bad(rule, f'{S}.get_long_term_key', 'anchor missing')
+        return
+    res = paths.run(fn, sym.Sym(), sym.Sym.init())
+    bad = []
+    kinds = set()
+    for k, facts, store, extra, w in sym.exits(res):
+        r = store.get('<return>')
+        kinds.add(r)
+        if r == 'self.stk':
+            if not (sym.holds(facts, 'self.sc', False) and sym.holds(facts, 'self.completed', False)):
+                bad.append(f'STK returned under {sorted((a, t) for a, t in facts.items())} ({" ".join(w)})')
+            if not (any('rand' in a and t for a, t in facts.items()) and any('ediv' in a and t for a, t in facts.items())):
+                bad.append('STK returned without matching Rand and EDIV')
+        elif r == 'self.ltk':
+            if sym.holds(facts, 'self.sc', False) and sym.holds(facts, 'self.completed', False):
+                bad.append('the distributed LTK is returned while legacy pairing is still in progress')
+    R.check({'self.stk', 'self.ltk'} <= kinds and not bad, rule, f'{S}.get_long_term_key', 'STK only for legacy pairing that has not completed (and matching Rand/EDIV); the LTK otherwise',
+            'after legacy pairing has completed the responder still answers LTK requests with the short-term key (the distributed LTK has the same EDIV/Rand of 0): a re-encryption uses different keys on the two sides', p.loc(fn), bad[:3])
+
+
+def fail_then_leave(ctx, rule='C13.fail-then-leave'):
+    """Once a session has declared the pairing failed, the handler stops: nothing else of the protocol is sent or derived."""
+    R, p = ctx.r, ctx.p
+    cls = p.cls(S)
+    if cls is None:
+        R.bad(rule, S, 'anchor missing')
+        return
+    EFFECT = ('send_command', 'start_encryption', 'send_pairing_', 'send_public_key', 'distribute_keys', 'send_identity', 'send_pairing_dhkey')
+    n = 0
+    for name, m in sorted(cls.methods.items()):
+        if not any(dotted(c.func) == 'self.send_pairing_failed' for c in calls_in(m)) or name == 'send_pairing_failed':
+            continue
+        n += 1
+
+        class D(paths.Domain):
+            implicit_raise = True  # any call may raise: exception handlers are reachable
+
+            def event(self, node, v):
+                if isinstance(node, ast.Call):
+                    d = dotted(node.func) or ''
+                    if d == 'self.send_pairing_failed':
+                        return ('failed',)
+                    if v == 'failed' and d.startswith('self.') and any(d[5:].startswith(e) for e in EFFECT):
+                        return ('continued:' + d,)
+                if v == 'failed' and isinstance(node, ast.Assign) and any((dotted(t) or '').startswith('self.') and (dotted(t) or '')[5:] in ('dh_key', 'ltk', 'stk', 'ea', 'eb') for t in node.targets):
+                    return ('continued:' + norm(node.targets[0]),)
+                return (v,)
+        res = paths.run(m, D(), 'ok')
+        bad = sorted({f'{v[10:]} after send_pairing_failed ({" ".join(w)})' for k, st in res.items() for v, w in st.items() if isinstance(v, str) and v.startswith('continued:')})
+        R.check(not bad, rule, f'{S}.{name} | stops after declaring failure', 'no protocol step follows send_pairing_failed on any path',
+                'the handler reports the pairing as failed and then carries on with the protocol (keys are derived / commands sent for a pairing the peer was told had failed)', p.loc(m), bad[:3])
+    R.check(n >= 3, rule, f'{S} | handlers that can declare failure', f'{n} methods analysed', f'only {n} methods call send_pairing_failed')
+
+
 RULES = [
+    ('C13.stk-scope', stk_scope),
+    ('C13.fail-then-leave', fail_then_leave),
     ('C13.role-symmetry', role_symmetry),
     ('C13.table', table),
     ('C13.auth-flag', auth_flag),
